@@ -63,3 +63,44 @@ def share_stale_refcount_after_reset(case, mismatch):
 
 
 PREDICATES['share_stale_refcount_after_reset'] = share_stale_refcount_after_reset
+
+
+CTXLESS_EMITTERS = {'StartWith', 'EndWith', 'Count', 'ToSlice', 'DefaultIfEmpty', 'Sum', 'Min', 'Max', 'Reduce', 'ToMap', 'All', 'Contains', 'ElementAtOrDefault', 'OnErrorReturn'}
+
+
+def prom_proc_missing_for_values_without_source_context(case, mismatch):
+    """Prom.tla rejected the run at `end`, every clause holds except that operator k has FEWER processing-time observations than values
+    leaving it, and an operator at position <= k emits values whose context does not come from a source value (prefixes, suffixes, aggregates)."""
+    evs = case['events']
+    if (mismatch.get('event') or {}).get('e') != 'end':
+        return False
+    chain = [x.split('(')[0] for x in evs[0]['s'].split('|')]
+    def obs(m):
+        return [(e['k'], e['v'], e['i'], e['o']) for e in evs if e['e'] == 'obs' and e['s'] == m]
+    def cnt(e0, m):
+        return sum(1 for e in evs if e['e'] == e0 and e['s'] == m)
+    if obs('on') != obs('ref') or obs('off') != obs('ref'):
+        return False
+    for e0 in ('src', 'torn'):
+        if cnt(e0, 'on') != cnt(e0, 'ref') or cnt(e0, 'off') != cnt(e0, 'ref'):
+            return False
+    met = {(e['k'], e['i']): e['v'] for e in evs if e['e'] == 'metric' and e['s'] == 'on'}
+    if any(e['e'] == 'metric' and e['s'] == 'off' for e in evs):
+        return False
+    if met.get(('subs', 0)) != cnt('sub', 'on') or met.get(('in', 0)) != cnt('src', 'on') or met.get(('lag', 0)) != cnt('src', 'on'):
+        return False
+    if met.get(('out', 0)) != sum(1 for o in obs('on') if o[0] == 'N'):
+        return False
+    bad = False
+    for k in range(len(chain)):
+        st = sum(1 for e in evs if e['e'] == 'stage' and e['i'] == k)
+        pr = met.get(('proc', k), 0)
+        if pr == st:
+            continue
+        if pr > st or not any(c in CTXLESS_EMITTERS for c in chain[:k + 1]):
+            return False
+        bad = True
+    return bad
+
+
+PREDICATES['prom_proc_missing_for_values_without_source_context'] = prom_proc_missing_for_values_without_source_context
